@@ -263,7 +263,7 @@ func runScenario(sc *scenario, tr *hx.Trace, work string, r *hx.Rng) {
 		}
 		src.initial = append(src.initial, init)
 	}
-	ln, err := net.Listen("tcp", "127.0.0.1:0")
+	ln, err := hx.Listen()
 	if err != nil {
 		hx.Fatal("%v", err)
 	}
